@@ -45,6 +45,10 @@ def crossFileFull : List (String × List SFile) :=
   [ ("inherit-loop-2", [sFile "M" [ib "A" ["B"]], sFile "M" [ib "B" ["A"]]]),
     ("inherit-loop-3-modules", [sFile "M" [ib "A" ["N::B"]], sFile "N" [ib "B" ["::M::K::C"]], sFile "M::K" [ib "C" ["A"]]]),
     ("inherit-loop-and-user", [sFile "M" [ib "I" ["I"]], sFile "M" [ib "K" ["I"]], sFile "N" [ib "L" ["M::K"]]]),
+    ("inherit-loop-2-and-user", [sFile "M" [.iface [] [] "Derived" [tr "Base"] [{ doc := [], attrs := [], idempotent := false, name := "opDerived", params := [], ret := .none }]],
+                                 sFile "M" [ib "Base" ["Middle"], ib "Middle" ["Base"]]]),
+    ("inherit-loop-3-and-users", [sFile "M" [ib "U1" ["A"], ib "U2" ["U1", "C"]], sFile "M" [ib "A" ["B"]], sFile "N" [ib "X" ["M::U2"]],
+                                  sFile "M" [ib "B" ["C"], ib "C" ["A"]]]),
     ("inherit-loop-and-cycle", [sFile "M" [ib "A" ["B"]], sFile "M" [ib "B" ["A"]], sFile "M" [.struct [] [] false "S" [fld "s" (sq "S")]]]),
     ("inherit-diamond", [sFile "M" [ib "A" []], sFile "M" [ib "B" ["A"]], sFile "N" [ib "C" ["M::A"]], sFile "M" [ib "D" ["B", "N::C"]]]),
     ("alias-anon-loop-2", [sFile "M" [.alias [] [] "A" (sq "B")], sFile "M" [.alias [] [] "B" (dc "A")], sFile "M" [.struct [] [] false "S" [fld "a" (tr "A")]]]),
